@@ -55,7 +55,7 @@ UNARY_METHODS = {
     'neg': 'neg', '__neg__': 'neg', 'not_': 'not', 'abs': 'abs',
     '__abs__': 'abs', 'bitnot': 'bitNot', '__invert__': 'bitNot',
     'as_int': 'asInteger', 'as_float': 'asFloat', 'ceil': 'ceil',
-    'floor': 'floor', 'frac': 'frac', 'sign': 'sign', 'squared': 'squared',
+    'floor': 'floor', '__ceil__': 'ceil', '__floor__': 'floor', 'frac': 'frac', 'sign': 'sign', 'squared': 'squared',
     'cubed': 'cubed', 'sqrt': 'sqrt', 'exp': 'exp',
     'reciprocal': 'reciprocal', 'midicps': 'midicps', 'cpsmidi': 'cpsmidi',
     'midiratio': 'midiratio', 'ratiomidi': 'ratiomidi', 'dbamp': 'dbamp',
@@ -559,6 +559,10 @@ class Builder:
                     v = abs(a)
                 elif op == '__invert__':
                     v = ~a
+                elif op == '__ceil__':
+                    v = math.ceil(a)
+                elif op == '__floor__':
+                    v = math.floor(a)
                 else:
                     v = getattr(a, op)()
             elif k == 'bin':
